@@ -134,6 +134,7 @@ def g3(ctx):
     F = facts(ctx)
     S = ctx.summaries
     obs = []
+    store_base = ctx.P.cls("xandikos.store.Store")
     for cq in (GIT + ".BareGitStore", GIT + ".TreeGitStore"):
         ci = ctx.P.cls(cq)
         for nm in READ_API:
@@ -157,7 +158,9 @@ def g3(ctx):
                     if lab:
                         hits.append((g, n, lab))
                     for t in targets:
-                        if t.cls is not None and t.module.name.startswith("xandikos.store") and t.cls not in ci.mro:
+                        # other store classes are other objects; collaborators (the metadata back ends) are followed
+                        if t.cls is not None and t.module.name.startswith("xandikos.store") and t.cls not in ci.mro \
+                                and store_base in t.cls.mro:
                             continue
                         if isinstance(c, ast.Call) and (dotted(c.func) or "").startswith("self.") and t.cls is not None and t.cls in ci.mro:
                             m = ctx.P.lookup_method(ci, t.name)
@@ -170,3 +173,20 @@ def g3(ctx):
                               "read method %s.%s reaches `%s` (%s in %s): a read can change the collection tag"
                               % (ci.name, nm, hits[0][1].text()[:50] if hits else "", hits[0][2] if hits else "", hits[0][0].short if hits else "")))
     return obs
+
+
+@rule("C08", "G4", floor=5, kind="N",
+      desc="the content the tag stands for is the content that is served: the tree store's read API never goes "
+           "through the working-tree file (same obligations as C04/B2) - otherwise GET can change while every tag stays")
+def g4(ctx):
+    from .c04 import b2
+    return b2(ctx)
+
+
+@rule("C08", "G5", floor=3, kind="N",
+      desc="index, working tree and commit move together inside the critical section (same obligations as C09/K3): "
+           "the tag is computed from the index, a commit or file change outside the lock makes it name a state that "
+           "HEAD / GET do not show")
+def g5(ctx):
+    from .c09 import k3
+    return k3(ctx)
